@@ -1,6 +1,7 @@
 /-
   C20: the tokens of `dot_format()`'s output parse, by the DOT grammar of `Model/DotParse.lean`, into exactly the
-  intended statements: one node statement per atomic job, one subgraph per nested scheduler (well nested), one edge
+  intended statements: one node statement per atomic job (plus one invisible node per empty nested scheduler, inside
+  its cluster), one subgraph per nested scheduler (well nested), one edge
   statement per requirement, nothing else.  Together with `render_lexes` (C20Lex) this makes the output a
   syntactically valid DOT document whose parse is `docStmts`.
 -/
@@ -24,6 +25,7 @@ def stmtsOf (c : RenderCtx) : Item → List DStmt
     [.edge (c.rid a).toList (c.rid b).toList
       ((match hd with | some h => [("lhead".toList, (clusterName c h).toList)] | none => []) ++
        (match tl with | some t => [("ltail".toList, (clusterName c t).toList)] | none => []))]
+  | .holder s => [.node (c.rid s).toList (attrsOf holderAttrs)]
 
 /-- the statements of the whole document -/
 def docStmts (c : RenderCtx) (items : List Item) : List DStmt :=
@@ -51,6 +53,7 @@ theorem startOk_items (c : RenderCtx) (items : List Item) :
     | .edge _ _ none (some _) => rfl
     | .edge _ _ (some _) none => rfl
     | .edge _ _ (some _) (some _) => rfl
+    | .holder _ => rfl
 
 /-- the tokens of a list of items that closes the `d` open clusters, followed by the closing brace of the graph,
     parse (at depth `d`) into the statements of the items; one unit of fuel per token is enough -/
@@ -174,6 +177,20 @@ theorem parseStmts_items (c : RenderCtx) : ∀ (items : List Item) (d f : Nat), 
               (parseAList_cons idOf_ltail (idOf_cluster c tl) (parseAList_nil f' _)))
             (parseAttrList_semi _ toks)))
         (ih d _ hd' (by omega))
+    | .holder j =>
+      have hd' : depthOk d items = true := by cases d <;> simpa [depthOk] using hd
+      have e : (Item.holder j :: items).flatMap (itemToks c) ++ [Tok.rbrace] =
+          Tok.id (c.rid j).toList :: Tok.lbrack :: (attrToks holderAttrs ++ Tok.rbrack :: toks) := by
+        simp [List.flatMap_cons, itemToks, ← htoks]
+      have hf' : (attrToks holderAttrs).length + toks.length + 3 ≤ f := by
+        simp only [List.flatMap_cons, itemToks, List.length_append, List.length_cons, List.length_nil] at hf
+        omega
+      obtain ⟨f', rfl⟩ : ∃ f', f = f' + 1 := ⟨f - 1, by omega⟩
+      rw [e]
+      exact parseStmts_idStmt (rid_notKeyword c j)
+        (parseIdStmt_node (parseAttrList_attrs holderAttrs holderAttrs_notKeyword (by omega)
+          (fun f'' => parseAttrList_of_startOk f'' hs)))
+        (by rw [skipSemi_of_startOk hs]; exact ih d f' hd' (by omega))
 
 /-- `digraph NAME { stmt_list }` -/
 theorem parseDot_digraph {n : Tok} {n' : List Char} {body : List Tok} {ss : List DStmt} (hn : idOf? n = some n')
@@ -273,5 +290,123 @@ example : parseString (render exCtx exItems) = some (some "asynciojobs".toList, 
         rw [this] at hch
         revert ch; decide)
     (by decide)
+
+/-! ### non-vacuity, the case that used to raise `ValueError`: the nested schedulers 1, 3 and 4 are empty;
+    job 2 requires scheduler 1, scheduler 3 requires job 2 and scheduler 1; no edge is attached to scheduler 4 -/
+
+def exT2 : T where
+  n := 5
+  isSched := fun j => j == 0 || j == 1 || j == 3 || j == 4
+  mem := fun j => if j == 0 then [1, 2, 3, 4] else []
+  req := fun j => if j == 2 then [1] else if j == 3 then [2, 1] else []
+  forever := fun _ => false
+  critical := fun _ => false
+
+def exCtx2 : RenderCtx := { t := exT2, idOf := fun j => j, w := 1, label := fun _ => "x" }
+
+def exItems2 : List Item :=
+  [.openCluster 1, .holder 1, .close, .node 2, .edge 1 2 none (some 1),
+   .openCluster 3, .holder 3, .close, .edge 2 3 (some 3) none, .edge 1 3 (some 3) (some 1),
+   .openCluster 4, .close]
+
+/-- an empty scheduler stands for itself -/
+example : middleEntry exT2 5 1 = .ok 1 ∧ middleExit exT2 5 1 = .ok 1 := ⟨rfl, rfl⟩
+
+/-- these are the items `dot_format()` produces for `exT2`: each empty nested scheduler that an edge is attached to
+    owns an invisible node, inside its cluster, that the edges from / to the cluster use; scheduler 4, empty as
+    well but neither required nor requiring, has none (its cluster is rendered as before the repair) -/
+theorem exItems2_eq : dotBody exT2 5 5 0 = .ok exItems2 := by rfl
+
+example : dotItems exT2 5 0 = .ok exItems2 := by rfl
+
+/-- the first run of `_dot_body` (no `_dot_anchor` set) has no holder at all; its edges give the anchors 1 and 3 -/
+example : dotBodyWith exT2 [] 5 5 0 = .ok (exItems2.filter fun i => match i with | .holder _ => false | _ => true) ∧
+    anchorsOf exT2 exItems2 = [1, 3, 1, 3] := ⟨rfl, rfl⟩
+
+example : Item.holder 1 ∈ exItems2 ∧ Item.holder 3 ∈ exItems2 ∧ Item.holder 4 ∉ exItems2 ∧
+    Item.openCluster 4 ∈ exItems2 := by decide
+
+/-- an empty scheduler reached by the descent of `_middle_exit_job` from a linked ancestor gets its node too:
+    scheduler 1 holds the empty scheduler 2 only; job 3 requires scheduler 1 -/
+def exT3 : T where
+  n := 4
+  isSched := fun j => j == 0 || j == 1 || j == 2
+  mem := fun j => if j == 0 then [1, 3] else if j == 1 then [2] else []
+  req := fun j => if j == 3 then [1] else []
+  forever := fun _ => false
+  critical := fun _ => false
+
+example : dotBody exT3 5 5 0 =
+    .ok [.openCluster 1, .openCluster 2, .holder 2, .close, .close, .node 3, .edge 2 3 none (some 1)] := by rfl
+
+/-- the text, byte for byte -/
+example : render exCtx2 exItems2 =
+    "digraph asynciojobs{\ncompound=true;\ngraph [];\n" ++
+    "subgraph cluster_1{\ncompound=true;\ngraph [style=\"\",label=\"1: x\",shape=\"box\",penwidth=\"0.5\"];\n" ++
+    "1 [shape=\"point\",style=\"invis\"]\n}\n" ++
+    "2 [style=\"rounded\",label=\"2: x\",shape=\"box\",penwidth=\"0.5\"]\n" ++
+    "1 -> 2 [ltail=cluster_1];\n" ++
+    "subgraph cluster_3{\ncompound=true;\ngraph [style=\"\",label=\"3: x\",shape=\"box\",penwidth=\"0.5\"];\n" ++
+    "3 [shape=\"point\",style=\"invis\"]\n}\n" ++
+    "2 -> 3 [lhead=cluster_3];\n" ++
+    "1 -> 3 [lhead=cluster_3 ltail=cluster_1];\n" ++
+    "subgraph cluster_4{\ncompound=true;\ngraph [style=\"\",label=\"4: x\",shape=\"box\",penwidth=\"0.5\"];\n}\n" ++
+    "}\n" := by
+  decide +kernel
+
+/-- the invisible node alone: its line lexes into the intended tokens and a document made of it parses into one
+    node statement with the two attributes (computed by the lexer and the parser, not through the theorems) -/
+example : lexString (renderItem exCtx2 (.holder 1)) = some (itemToks exCtx2 (.holder 1)) := by
+  decide +kernel
+
+example : parseString (render exCtx2 [.holder 1]) = some (some "asynciojobs".toList,
+    [.assign "compound".toList "true".toList, .attr "graph".toList [],
+     .node "1".toList [("shape".toList, "point".toList), ("style".toList, "invis".toList)]]) := by
+  decide +kernel
+
+/-- `dot_format_parses` applies to the whole example -/
+theorem exItems2_parses :
+    parseString (render exCtx2 exItems2) = some (some "asynciojobs".toList, docStmts exCtx2 exItems2) :=
+  dot_format_parses exCtx2 5 5 0 exItems2 exItems2_eq
+    (by intro j; show ∀ ch ∈ ("x" : String).toList, ch ≠ '\\'; decide) (by decide)
+
+/-- … so the text parses into these statements: the invisible nodes are node statements inside their clusters -/
+example : parseString (render exCtx2 exItems2) = some (some "asynciojobs".toList,
+    [.assign "compound".toList "true".toList, .attr "graph".toList [],
+     .openSub (some "cluster_1".toList), .assign "compound".toList "true".toList,
+     .attr "graph".toList [("style".toList, []), ("label".toList, "1: x".toList), ("shape".toList, "box".toList),
+       ("penwidth".toList, "0.5".toList)],
+     .node "1".toList [("shape".toList, "point".toList), ("style".toList, "invis".toList)],
+     .closeSub,
+     .node "2".toList [("style".toList, "rounded".toList), ("label".toList, "2: x".toList),
+       ("shape".toList, "box".toList), ("penwidth".toList, "0.5".toList)],
+     .edge "1".toList "2".toList [("ltail".toList, "cluster_1".toList)],
+     .openSub (some "cluster_3".toList), .assign "compound".toList "true".toList,
+     .attr "graph".toList [("style".toList, []), ("label".toList, "3: x".toList), ("shape".toList, "box".toList),
+       ("penwidth".toList, "0.5".toList)],
+     .node "3".toList [("shape".toList, "point".toList), ("style".toList, "invis".toList)],
+     .closeSub,
+     .edge "2".toList "3".toList [("lhead".toList, "cluster_3".toList)],
+     .edge "1".toList "3".toList [("lhead".toList, "cluster_3".toList), ("ltail".toList, "cluster_1".toList)],
+     .openSub (some "cluster_4".toList), .assign "compound".toList "true".toList,
+     .attr "graph".toList [("style".toList, []), ("label".toList, "4: x".toList), ("shape".toList, "box".toList),
+       ("penwidth".toList, "0.5".toList)],
+     .closeSub]) := by
+  rw [exItems2_parses]
+  decide +kernel
+
+/-- and the hypotheses of `dotBody_total` hold for it -/
+example : ∃ items, dotBody exT2 5 5 0 = .ok items :=
+  dotBody_total exT2 5 5 0 [1, 2, 3, 4] (by decide)
+    (by
+      intro s' _ _ k hk
+      by_cases h0 : s' = 0
+      · subst h0
+        have : k = 1 ∨ k = 2 ∨ k = 3 ∨ k = 4 := by simpa [exT2] using hk
+        have hn : exT2.n = 5 := rfl
+        omega
+      · have : exT2.mem s' = [] := by simp [exT2, h0]
+        rw [this] at hk; cases hk)
+    (by decide) (by rfl)
 
 end AJ.Proofs.C20Parse
